@@ -7,7 +7,10 @@
 #include <algorithm>
 #include <cfloat>
 #include <cmath>
+#include <complex>
 #include <limits>
+#include <optional>
+#include <string_view>
 
 #include "common/verif.h"
 #include "ref/ref_floattext.h"
@@ -32,7 +35,23 @@ const verif::Info verif_info = {
     "spellings with huge and tiny exponents, decimals a hair above a float rounding midpoint, raw bytes from a float alphabet incl. NUL and high bytes: "
     "to_float/to_double with and without conversion_result vs strtof/strtod called by the harness (bit-equal or both NaN; ok <=> consumed>0, full_match "
     "<=> consumed==size). Any exception (ST_ASSERT arrives as one), abort or sanitizer report is a violation. Non-trivial: rendering longer than 24 "
-    "characters, or value non-finite or subnormal; for parsing: something consumed and (partial match, or result non-finite/subnormal/out of range).",
+    "characters, or value non-finite or subnormal; for parsing: something consumed and (partial match, or result non-finite/subnormal/out of range). "
+    "Extension: with every from_* check also from_double(float), from_float((double)float), from_float((float)double) (each overload renders the value it "
+    "is given), ST::float_formatter<float/double> used directly (format/text/size/NUL; one object re-used for -max in 'f' notation - the longest rendering "
+    "the type has -, the tested value and 0), an unsupported format letter (a A d i u x s c p n % l L h q digits . # * - + blank NUL high bytes ...) "
+    "through from_float, from_double and float_formatter::format - ST::bad_format expected (a printf-equal %a/%A rendering would be accepted), "
+    "ST::format(validation, ...), ST::format_latin_1 and the _stfmt literal. Complex class: std::complex<float/double> (lvalue and rvalue) through "
+    "ST::format with the same spec generator - expected <re>+<im>i with each part rendered and padded like a lone value. Stream class: string_stream << "
+    "float/double and ST::format of the same (any notation/precision) after 0..5000 bytes of earlier output reached in 7 ways (one append, many small "
+    "appends, grown then truncated, overfilled then erased, move-constructed, move-assigned over a grown stream, emptied and refilled) followed by 5 kinds "
+    "of further appends, byte model; fill levels biased to renderings that straddle or end on a capacity step (256 x 2^k); every fill level enumerated. "
+    "Parse direction additionally: conversion_result objects that were first used on a text producing each of the four flag combinations (\"\", \"1\", "
+    "\" \", \"1 \"; through to_double or to_float) and are used on that text again afterwards, a chain of four calls on one object (all of this for texts "
+    "<= 512 bytes, one hashed pair otherwise and in the enumerator); subjects built through 10 construction routes (char8_t, std::u8string, string_view, "
+    "UTF-16, substr of a longer string with digits around it, move, +=, default-constructed); texts of several KB (blank runs, leading zeros, 1 followed by "
+    "38/39/308/309/5000 zeros, 0.000...d underflow, long hex mantissas, zero-padded and huge exponents, a stopper followed by a long digit run); the "
+    "enumerator parses every string of length <= 4 (quick) / 5 (thorough) over a 16-symbol alphabet and the special spellings with prefixes and suffixes. "
+    "Non-trivial for the stream class: a rendering straddles or ends on a capacity step, or the fill is beyond the in-object capacity.",
     true, "exploration"};
 
 namespace {
@@ -62,7 +81,10 @@ struct RenderCase {
     unsigned order = 0;      // permutation of the flag parts
     int ctx = 0;             // literal text around the field
     int letter = 0;          // index into kLetters for from_float/from_double; -1: skip these
+    bool cplx = false;       // the argument is std::complex<float/double>(value(), value2())
+    uint64_t bits2 = 0;      // imaginary part (same representation as bits)
     double value() const { return is_float ? (double)flt_from_bits((uint32_t)bits) : dbl_from_bits(bits); }
+    double value2() const { return is_float ? (double)flt_from_bits((uint32_t)bits2) : dbl_from_bits(bits2); }
 };
 
 // "{...}" for the case.  Flags in the order chosen by `order`; a digit-bearing part never directly
@@ -96,8 +118,10 @@ const char *const kCtxPreOut[4] = {"", "xx", "{", "["};
 const char *const kCtxPostOut[4] = {"", "xx", "}", "]"};
 
 std::string value_text(const RenderCase &rc) {
-    char buf[96];
-    if (rc.is_float) snprintf(buf, sizeof buf, "float %.9g (bits %08X)", rc.value(), (unsigned)rc.bits);
+    char buf[200];
+    if (rc.cplx && rc.is_float) snprintf(buf, sizeof buf, "std::complex<float>(%.9g, %.9g) (bits %08X, %08X)", rc.value(), rc.value2(), (unsigned)rc.bits, (unsigned)rc.bits2);
+    else if (rc.cplx) snprintf(buf, sizeof buf, "std::complex<double>(%.17g, %.17g) (bits %016llX, %016llX)", rc.value(), rc.value2(), (unsigned long long)rc.bits, (unsigned long long)rc.bits2);
+    else if (rc.is_float) snprintf(buf, sizeof buf, "float %.9g (bits %08X)", rc.value(), (unsigned)rc.bits);
     else snprintf(buf, sizeof buf, "double %.17g (bits %016llX)", rc.value(), (unsigned long long)rc.bits);
     return buf;
 }
@@ -105,11 +129,57 @@ std::string value_text(const RenderCase &rc) {
 std::string render_render(const RenderCase &rc) {
     std::string fmt = std::string(kCtxPre[rc.ctx & 3]) + build_field(rc) + kCtxPost[rc.ctx & 3];
     std::string text = ref::c_printf_double(rc.value(), kConv[rc.conv], rc.plus, rc.prec);
+    if (rc.cplx)
+        return "C13 render " + value_text(rc) + " ST::format(" + verif::quoted(fmt) + ") ~ each part as printf " + verif::quoted(text, 40) + " / " +
+               verif::quoted(ref::c_printf_double(rc.value2(), kConv[rc.conv], rc.plus, rc.prec), 40) + " padded to " + verif::num(rc.width) + ", joined as <re>+<im>i";
     return "C13 render " + value_text(rc) + " ST::format(" + verif::quoted(fmt) + ") ~ printf " + verif::quoted(text, 40) + " (" + verif::unum(text.size()) +
-           " chars) padded to " + verif::num(rc.width) + (rc.letter >= 0 ? std::string("; from_*(v,'") + kLetters[rc.letter] + "') and string_stream<< checked" : "");
+           " chars) padded to " + verif::num(rc.width) + (rc.letter >= 0 ? std::string("; from_*(v,'") + kLetters[rc.letter] + "'), float_formatter, unsupported letters and string_stream<< checked" : "");
 }
 
 struct RenderFacts { size_t len = 0; };
+
+// ---------------------------------------------------------------------------------------------
+// Further public routes (added with the extension of this harness)
+
+// letters float_formatter / from_float / from_double do not support
+const char kBadLetters[] = {'a', 'A', 'd', 'i', 'u', 'x', 'X', 'o', 's', 'c', 'p', 'n', '%', 'l', 'L', 'h', 'q', '0', '1', '.', '#', '*', '-', '+', ' ', '\0', 'D', 'S', 'N', 'z', (char)0x80, (char)0xFF, 'H', '\n'};
+
+std::string letter_text(char L) { char b[16]; if (L >= 0x20 && L < 0x7F) snprintf(b, sizeof b, "'%c'", L); else snprintf(b, sizeof b, "'\\x%02X'", (unsigned char)L); return b; }
+
+// An unsupported letter is answered with ST::bad_format.  (A tree that additionally supported the two remaining printf conversions for
+// doubles, %a / %A, would still satisfy the property if it rendered them as printf does; everything else is a violation.)
+template <class Fn> std::string expect_bad_format(Fn fn, char bad, double dv, const char *what) {
+    try {
+        std::string got = fn();
+        if ((bad == 'a' || bad == 'A') && got == ref::c_printf_double(dv, bad, false, -1)) return std::string();
+        return std::string(what) + " with the unsupported format letter " + letter_text(bad) + " returned " + verif::quoted(got, 60) + " instead of throwing ST::bad_format";
+    } catch (const ST::bad_format &) {
+        return std::string();
+    }
+}
+
+bool same_text(const ST::string &got, const std::string &want) { return got.size() == want.size() && memcmp(got.c_str(), want.data(), want.size()) == 0 && got.c_str()[got.size()] == 0; }
+
+template <class F> std::string check_float_formatter(F v, char L, const std::string &wl, const std::string &vt) {
+    // one object, three values: the longest rendering the type has (-max, 'f'), then the value under test, then "0"
+    ST::float_formatter<F> ff;
+    const F longest = -std::numeric_limits<F>::max();
+    const std::string wlong = ref::c_printf_double((double)longest, 'f', false, -1);
+    ff.format(longest, 'f');
+    if (ff.size() != wlong.size() || std::string(ff.text(), ff.size()) != wlong || ff.text()[ff.size()] != 0)
+        return "float_formatter::format(-max, 'f') gives " + verif::quoted(std::string(ff.text(), ff.size()), 60) + " (" + verif::unum(ff.size()) + " chars), printf %f gives " + verif::unum(wlong.size()) + " chars";
+    ff.format(v, L);
+    if (ff.size() != wl.size() || std::string(ff.text(), ff.size()) != wl)
+        return "float_formatter::format(" + vt + ", '" + L + "') on a re-used formatter: text()/size() give " + verif::quoted(std::string(ff.text(), ff.size()), 120) + ", printf %" + L + " gives " + verif::quoted(wl, 120);
+    if (ff.text()[ff.size()] != 0) return "float_formatter::text() is not NUL-terminated at size()";
+    ff.format(F(0), 'g');
+    if (ff.size() != 1 || ff.text()[0] != '0' || ff.text()[1] != 0) return "float_formatter::format(0, 'g') after a longer value gives " + verif::quoted(std::string(ff.text(), ff.size()));
+    ST::float_formatter<F> fresh;
+    fresh.format(v, L);
+    if (fresh.size() != wl.size() || std::string(fresh.text(), fresh.size()) != wl || fresh.text()[fresh.size()] != 0)
+        return "float_formatter::format(" + vt + ", '" + L + "') gives " + verif::quoted(std::string(fresh.text(), fresh.size()), 120) + ", printf %" + L + " gives " + verif::quoted(wl, 120);
+    return std::string();
+}
 
 template <class F> std::string check_render_t(const RenderCase &rc, F v, RenderFacts *facts) {
     const double dv = (double)v;     // what printf receives for a float argument, too
@@ -120,6 +190,23 @@ template <class F> std::string check_render_t(const RenderCase &rc, F v, RenderF
         const std::string want = std::string(kCtxPreOut[rc.ctx & 3]) + ref::pad_number(text, rc.width, (ref::Align)rc.align, pad) + kCtxPostOut[rc.ctx & 3];
         const std::string fmt = std::string(kCtxPre[rc.ctx & 3]) + build_field(rc) + kCtxPost[rc.ctx & 3];
         verif::Exact<char> fz(fmt.data(), fmt.size(), true);
+        if (rc.cplx) {
+            // std::complex<F>: real part, '+', imaginary part, 'i' - each part rendered (and padded) like a lone value
+            F im;
+            if constexpr (std::is_same<F, float>::value) im = flt_from_bits((uint32_t)rc.bits2); else im = dbl_from_bits(rc.bits2);
+            const std::string text2 = ref::c_printf_double((double)im, kConv[rc.conv], rc.plus, rc.prec);
+            if (facts) facts->len = std::max(text.size(), text2.size());
+            const std::string wantc = std::string(kCtxPreOut[rc.ctx & 3]) + ref::pad_number(text, rc.width, (ref::Align)rc.align, pad) + "+" +
+                                      ref::pad_number(text2, rc.width, (ref::Align)rc.align, pad) + "i" + kCtxPostOut[rc.ctx & 3];
+            const std::complex<F> z(v, im);
+            ST::string gc = ST::format(fz.data(), z);
+            if (!same_text(gc, wantc))
+                return "ST::format(" + verif::quoted(fmt) + ", " + value_text(rc) + ") gives " + verif::quoted(str_of(gc), 160) + " (" + verif::unum(gc.size()) +
+                       " bytes), the two printf renderings joined as <re>+<im>i are " + verif::quoted(wantc, 160) + " (" + verif::unum(wantc.size()) + " bytes)";
+            ST::string g2 = ST::format(fz.data(), std::complex<F>(v, im));          // rvalue argument
+            if (!same_text(g2, wantc)) return "ST::format(" + verif::quoted(fmt) + ", rvalue " + value_text(rc) + ") gives " + verif::quoted(str_of(g2), 160);
+            return std::string();
+        }
         ST::string got = ST::format(fz.data(), v);
         if (str_of(got) != want)
             return "ST::format(" + verif::quoted(fmt) + ", " + value_text(rc) + ") gives " + verif::quoted(str_of(got), 120) + " (" + verif::unum(got.size()) +
@@ -146,6 +233,40 @@ template <class F> std::string check_render_t(const RenderCase &rc, F v, RenderF
                 if constexpr (std::is_same<F, float>::value) d0 = ST::string::from_float(v); else d0 = ST::string::from_double(v);
                 if (str_of(d0) != wg) return "from_float/from_double(" + value_text(rc) + ") with the default format gives " + verif::quoted(str_of(d0)) + ", printf %g gives " + verif::quoted(wg);
             }
+            {   // the remaining overload / conversion combinations: each renders the value it is given
+                const std::string vt = value_text(rc);
+                if constexpr (std::is_same<F, float>::value) {
+                    if (!same_text(ST::string::from_double(v, L), wl)) return "from_double(" + vt + ", '" + L + "') gives " + verif::quoted(str_of(ST::string::from_double(v, L)), 120) + ", printf gives " + verif::quoted(wl, 120);
+                    if (!same_text(ST::string::from_float((double)v, L), wl)) return "from_float((double)" + vt + ", '" + L + "') gives " + verif::quoted(str_of(ST::string::from_float((double)v, L)), 120) + ", printf gives " + verif::quoted(wl, 120);
+                } else {
+                    // a double that is not a float value must not be narrowed by from_float(double): wl above is the double's rendering.
+                    // from_float((float)v) is the float's rendering
+                    const float nf = (float)v;
+                    const std::string wf = ref::c_printf_double((double)nf, L, false, -1);
+                    if (!same_text(ST::string::from_float(nf, L), wf)) return "from_float((float)" + vt + ", '" + L + "') gives " + verif::quoted(str_of(ST::string::from_float(nf, L)), 120) + ", printf gives " + verif::quoted(wf, 120);
+                }
+                std::string why = check_float_formatter<F>(v, L, wl, vt);
+                if (!why.empty()) return why;
+                // unsupported letters
+                const uint64_t hb = rc.bits * 0x9E3779B97F4A7C15ull;
+                const char bad = kBadLetters[(hb >> 40) % sizeof kBadLetters];
+                why = expect_bad_format([&] { if constexpr (std::is_same<F, float>::value) return str_of(ST::string::from_float(v, bad)); else return str_of(ST::string::from_double(v, bad)); }, bad, dv,
+                                        std::is_same<F, float>::value ? "from_float(float)" : "from_double");
+                if (!why.empty()) return why;
+                why = expect_bad_format([&] { return str_of(ST::string::from_float(dv, bad)); }, bad, dv, "from_float(double)");
+                if (!why.empty()) return why;
+                why = expect_bad_format([&] { ST::float_formatter<F> f2; f2.format(v, bad); return std::string(f2.text(), f2.size()); }, bad, dv, "float_formatter::format");
+                if (!why.empty()) return why;
+                // the other ST::format entry points
+                using namespace ST::literals;
+                if (!same_text(ST::format(ST::check_validity, fz.data(), v), want)) return "ST::format(check_validity, " + verif::quoted(fmt) + ", " + vt + ") differs from ST::format(fmt, v): " + verif::quoted(str_of(ST::format(ST::check_validity, fz.data(), v)), 120);
+                if (!same_text(ST::format(ST::assume_valid, fz.data(), v), want)) return "ST::format(assume_valid, " + verif::quoted(fmt) + ", " + vt + ") differs from ST::format(fmt, v)";
+                if (!same_text(ST::format_latin_1(fz.data(), v), want)) return "ST::format_latin_1(" + verif::quoted(fmt) + ", " + vt + ") gives " + verif::quoted(str_of(ST::format_latin_1(fz.data(), v)), 120) + ", expected " + verif::quoted(want, 120);
+                const std::string wgl = ref::c_printf_double(dv, 'g', false, -1);
+                if (!same_text("{}"_stfmt(v), wgl)) return "\"{}\"_stfmt(" + vt + ") gives " + verif::quoted(str_of("{}"_stfmt(v))) + ", printf %g gives " + verif::quoted(wgl);
+                const std::string wfl = ref::c_printf_double(dv, 'e', true, 3);
+                if (!same_text("{+.3e}"_stfmt(v), wfl)) return "\"{+.3e}\"_stfmt(" + vt + ") gives " + verif::quoted(str_of("{+.3e}"_stfmt(v))) + ", printf %+.3e gives " + verif::quoted(wfl);
+            }
             ST::string_stream ss;
             ss << v;
             std::string sg(ss.raw_buffer(), ss.size());
@@ -171,8 +292,9 @@ void encode_render(const RenderCase &rc, uint8_t *o) {
     o[10] = (uint8_t)rc.conv; unsigned p = rc.prec < 0 ? 0xFFFF : (unsigned)rc.prec; o[11] = (uint8_t)p; o[12] = (uint8_t)(p >> 8);
     o[13] = rc.plus; o[14] = (uint8_t)rc.width; o[15] = (uint8_t)(rc.width >> 8); o[16] = (uint8_t)rc.align; o[17] = (uint8_t)rc.padkind;
     o[18] = (uint8_t)rc.padch; o[19] = (uint8_t)rc.order; o[20] = (uint8_t)rc.ctx; o[21] = (uint8_t)(rc.letter < 0 ? 0xFF : rc.letter);
+    o[22] = rc.cplx; for (int i = 0; i < 8; i++) o[23 + i] = (uint8_t)(rc.bits2 >> (8 * i));
 }
-const size_t kRenderBytes = 22;
+const size_t kRenderBytes = 31;      // the first 22 bytes are the original layout (saved inputs of that length decode as before: not complex)
 
 bool is_subnormal(double d) { return d != 0 && std::fabs(d) < DBL_MIN; }
 bool is_subnormal_f(float f) { return f != 0 && std::fabs(f) < FLT_MIN; }
@@ -230,7 +352,61 @@ const int kPrecTable[] = {0, 1, 6, 15, 17, 30, 60, 100, 400, 2, 3, 5, 7, 9, 16, 
 // Parse direction
 struct ParseFacts { size_t consumed = 0; bool range = false; bool special = false; };
 
-std::string check_parse(const uint8_t *bytes, size_t n, ParseFacts *facts) {
+// Four tiny texts whose parse yields each of the four flag combinations: used to put a conversion_result object into a known
+// state before it is handed to another call ("re-use").
+struct Primer { const char *text; size_t n; bool ok, full; };
+const Primer kPrimers[4] = {{"", 0, false, true}, {"1", 1, true, true}, {" ", 1, false, false}, {"1 ", 2, true, false}};
+const ST::string &primer_string(int p) {
+    static const ST::string tab[4] = {ST::string::from_validated(kPrimers[0].text, kPrimers[0].n), ST::string::from_validated(kPrimers[1].text, kPrimers[1].n),
+                                      ST::string::from_validated(kPrimers[2].text, kPrimers[2].n), ST::string::from_validated(kPrimers[3].text, kPrimers[3].n)};
+    return tab[p & 3];
+}
+std::string flags_text(bool ok, bool full) { return std::string("ok=") + (ok ? "1" : "0") + " full_match=" + (full ? "1" : "0"); }
+// bring `cr` into the state of primer p through a real library call (to_double for even `via`, to_float for odd)
+bool prime(ST::conversion_result &cr, int p, int via, std::string &why) {
+    const Primer &pr = kPrimers[p & 3];
+    double got = (via & 1) ? (double)primer_string(p).to_float(cr) : primer_string(p).to_double(cr);
+    if (cr.ok() != pr.ok || cr.full_match() != pr.full || got != (pr.ok ? 1.0 : 0.0)) {
+        char tmp[64]; snprintf(tmp, sizeof tmp, "%.17g", got);
+        why = std::string((via & 1) ? "to_float" : "to_double") + "(result) of " + verif::quoted(std::string(pr.text, pr.n)) + " gives " + tmp + " " + flags_text(cr.ok(), cr.full_match()) + ", expected " +
+              (pr.ok ? "1 " : "0 ") + flags_text(pr.ok, pr.full);
+        return false;
+    }
+    return true;
+}
+
+enum { kRoutes = 10 };
+const char *const kRouteNames[kRoutes] = {"route:from_validated", "route:from_validated(char8_t)", "route:ctor(char8_t*)", "route:ctor(std::u8string)", "route:ctor(string_view)",
+                                          "route:from_utf16(ASCII)", "route:substr-of-longer", "route:moved-into", "route:default-constructed", "route:operator+="};
+// The subject string, built through different public constructors (all hold exactly the bytes given).
+ST::string make_subject(const char *p, size_t n, int route, int *used) {
+    *used = route;
+    switch (route) {
+    case 1: return ST::string::from_validated(reinterpret_cast<const char8_t *>(p), n);
+    case 2: return ST::string(reinterpret_cast<const char8_t *>(p), n, ST::assume_valid);
+    case 3: return ST::string(std::u8string(reinterpret_cast<const char8_t *>(p), n), ST::assume_valid);
+    case 4: return ST::string(std::string_view(p, n), ST::assume_valid);
+    case 5: {
+        bool ascii = true; for (size_t i = 0; i < n; i++) if ((unsigned char)p[i] >= 0x80) ascii = false;
+        if (!ascii) break;
+        std::u16string w(n, u'\0'); for (size_t i = 0; i < n; i++) w[i] = (char16_t)(unsigned char)p[i];
+        return ST::string::from_utf16(w.data(), n);
+    }
+    case 6: {       // digits directly before and behind the part that is cut out
+        ST::string big = ST::string::from_validated("9", 1) + ST::string::from_validated(p, n) + ST::string::from_validated("9e5", 3);
+        return big.substr(1, n);
+    }
+    case 7: { ST::string tmp = ST::string::from_validated(p, n); ST::string moved(std::move(tmp)); return moved; }
+    case 8: if (n == 0) return ST::string(); break;
+    case 9: { ST::string acc; size_t half = n / 2; acc += ST::string::from_validated(p, half); acc += ST::string::from_validated(p + half, n - half); return acc; }
+    default: break;
+    }
+    *used = 0;
+    return ST::string::from_validated(p, n);
+}
+
+// reuse: 0 = one (member, earlier state) pair chosen by a hash of the text; 1 = both members x all four earlier states + a chain
+std::string check_parse(const uint8_t *bytes, size_t n, ParseFacts *facts, int route = 0, int reuse = 0, int *route_used = nullptr) {
     verif::Exact<char> src(reinterpret_cast<const char *>(bytes), n);            // for the library: exact size, no terminator
     verif::Exact<char> z(reinterpret_cast<const char *>(bytes), n, true);        // for the C library: same bytes + NUL
     try {
@@ -240,8 +416,11 @@ std::string check_parse(const uint8_t *bytes, size_t n, ParseFacts *facts) {
             facts->consumed = pd.consumed; facts->range = pd.range || pf.range;
             facts->special = !std::isfinite(pd.value) || is_subnormal(pd.value) || !std::isfinite(pf.value) || is_subnormal_f(pf.value);
         }
-        ST::string s = ST::string::from_validated(src.data(), n);
-        char tmp[200];
+        int used = 0;
+        ST::string s = make_subject(src.data(), n, route, &used);
+        if (route_used) *route_used = used;
+        if (s.size() != n || (n && memcmp(s.c_str(), src.data(), n) != 0)) return std::string("subject built by ") + kRouteNames[used] + " does not hold the given bytes";
+        char tmp[300];
         {
             ST::conversion_result cr;
             double d = s.to_double(cr);
@@ -264,6 +443,38 @@ std::string check_parse(const uint8_t *bytes, size_t n, ParseFacts *facts) {
             float f2 = s.to_float();
             if (!ref::same_float(f2, pf.value)) { snprintf(tmp, sizeof tmp, "to_float() gives %.9g, strtof returns %.9g", (double)f2, (double)pf.value); return tmp; }
         }
+        // ---- one conversion_result object used for several calls: each call sets the flags afresh
+        std::string why;
+        auto call = [&](int k, ST::conversion_result &cr) -> bool {     // member k (0 to_double, 1 to_float) on the subject; true if as expected
+            if (k == 0) { double d = s.to_double(cr); return ref::same_double(d, pd.value) && cr.ok() == pd.ok(n) && cr.full_match() == pd.full_match(n); }
+            float f = s.to_float(cr); return ref::same_float(f, pf.value) && cr.ok() == pf.ok(n) && cr.full_match() == pf.full_match(n);
+        };
+        auto reuse_pair = [&](int k, int p, int via) -> bool {
+            ST::conversion_result cr;
+            if (!prime(cr, p, via, why)) return false;
+            if (!call(k, cr)) {
+                why = std::string(k == 0 ? "to_double" : "to_float") + "(result) with a conversion_result last used on " + verif::quoted(std::string(kPrimers[p].text, kPrimers[p].n)) + " (" +
+                      flags_text(kPrimers[p].ok, kPrimers[p].full) + ") gives " + flags_text(cr.ok(), cr.full_match()) + " or a different value; a fresh object gives " +
+                      (k == 0 ? flags_text(pd.ok(n), pd.full_match(n)) : flags_text(pf.ok(n), pf.full_match(n)));
+                return false;
+            }
+            // and the subject's flags must not survive a later call on the primer text
+            if (!prime(cr, p, via + 1, why)) { why += " (conversion_result last used on the text under test)"; return false; }
+            return true;
+        };
+        if (reuse) {
+            for (int k = 0; k < 2; k++) for (int p = 0; p < 4; p++) if (!reuse_pair(k, p, k + p)) return why;
+            ST::conversion_result chain;
+            for (int i = 0; i < 4; i++) {
+                if (!call(i & 1, chain)) return std::string(i & 1 ? "to_float" : "to_double") + " in a chain of calls sharing one conversion_result gives " + flags_text(chain.ok(), chain.full_match()) + " or a different value";
+                if (!prime(chain, (i + (int)n) & 3, i, why)) return why + " (in a chain of calls sharing one conversion_result)";
+            }
+        } else {
+            uint32_t h = 2166136261u;
+            for (size_t i = 0; i < n; i++) h = (h ^ bytes[i]) * 16777619u;
+            h ^= h >> 15;
+            if (!reuse_pair((int)(h & 1), (int)((h >> 1) & 3), (int)((h >> 3) & 1))) return why;
+        }
     } catch (...) {
         return "unexpected " + verif::describe_current_exception();
     }
@@ -280,16 +491,20 @@ std::string render_parse(const uint8_t *bytes, size_t n) {
     return "C13 parse text=" + verif::quoted(std::string((const char *)bytes, n)) + tmp;
 }
 
-int run_parse_case(Case &c, const std::vector<uint8_t> &text) {
+int run_parse_case(Case &c, const std::vector<uint8_t> &text, int route = 0) {
     ParseFacts pf;
     if (c.want_text) c.text = render_parse(text.data(), text.size());
-    std::string why = check_parse(text.data(), text.size(), &pf);
     const size_t n = text.size();
+    int used = 0;
+    std::string why = check_parse(text.data(), n, &pf, route, n <= 512 ? 1 : 0, &used);
     c.label(n == 0 ? "parse:empty" : pf.consumed == 0 ? "parse:nothing-consumed" : pf.consumed == n ? "parse:full-match" : "parse:partial-match");
     if (pf.range) c.label("parse:out-of-range");
     if (pf.special && pf.consumed) c.label("parse:nonfinite-or-subnormal");
     if (std::find(text.begin(), text.end(), 0) != text.end()) c.label("parse:embedded-NUL");
+    if (n > 256) c.label(n >= 4096 ? "parse:text>=4096 bytes" : "parse:text 257..4095 bytes");
+    if (used) c.label(kRouteNames[used]);
     c.nontrivial = pf.consumed > 0 && (pf.consumed < n || pf.special || pf.range);
+    if (c.want_text && used) c.text += std::string("; subject ") + kRouteNames[used];
     if (!why.empty()) return c.fail(why);
     return verif::CASE_OK;
 }
@@ -299,7 +514,7 @@ int run_render_case(Case &c, const RenderCase &rc) {
     if (c.want_text) c.text = render_render(rc);
     std::string why = check_render(rc, &rf);
     const double dv = rc.value();
-    c.label(rc.is_float ? "value:float" : "value:double");
+    c.label(rc.cplx ? (rc.is_float ? "value:complex<float>" : "value:complex<double>") : rc.is_float ? "value:float" : "value:double");
     const bool sub = rc.is_float ? is_subnormal_f(flt_from_bits((uint32_t)rc.bits)) : is_subnormal(dv);
     c.label(std::isnan(dv) ? "class:nan" : std::isinf(dv) ? "class:inf" : dv == 0 ? "class:zero" : sub ? "class:subnormal" : "class:normal");
     static const char *const cl[] = {"conv:default", "conv:f", "conv:e", "conv:E"};
@@ -313,6 +528,140 @@ int run_render_case(Case &c, const RenderCase &rc) {
     c.nontrivial = rf.len > 24 || !std::isfinite(dv) || sub;
     if (!why.empty()) return c.fail(why);
     return verif::CASE_OK;
+}
+
+// ---------------------------------------------------------------------------------------------
+// string_stream << float/double and ST::format of them when the output already holds `fill` bytes: every fill level relative to
+// the in-object capacity (ST_STACK_STRING_SIZE) and its doublings; further appends follow; compared with a byte model.
+struct StreamCase {
+    bool is_float = false;
+    uint64_t bits = 0;
+    size_t fill = 0;     // 0..5000
+    int pre = 0;         // how the stream reached `fill` bytes
+    int tail = 0;        // what follows the number
+    int conv = 0;        // notation of the ST::format part
+    int prec = -1;       //   and its precision (-1 absent)
+    double value() const { return is_float ? (double)flt_from_bits((uint32_t)bits) : dbl_from_bits(bits); }
+};
+const size_t kMaxFill = 5000;
+const char *const kPreNames[7] = {"pre:one-append", "pre:many-small-appends", "pre:grown-then-truncated", "pre:overfilled-then-erased", "pre:move-constructed", "pre:move-assigned-over-grown",
+                                  "pre:grown-then-emptied-then-refilled"};
+inline char pattern_byte(size_t i) { return "abcdefghijklmnopqrstuvwxyzABCDEFGHIJKLMNOPQRSTUVWXYZ_-.,:;!?*/~@"[(i * 7 + i / 64) & 63]; }
+
+void build_prefill(ST::string_stream &a, const std::string &prefix, int pre) {
+    const size_t fill = prefix.size();
+    switch (pre) {
+    case 1: {
+        size_t pos = 0; unsigned step = 1;
+        while (pos < fill) {
+            size_t len = std::min<size_t>(1 + (step * 37) % 97, fill - pos);
+            switch (step & 3) {
+            case 0: a.append(prefix.data() + pos, len); break;
+            case 1: { std::string piece(prefix, pos, len); a << piece.c_str(); break; }
+            case 2: a << ST::string::from_validated(prefix.data() + pos, len); break;
+            default: for (size_t i = 0; i < len; i++) a << prefix[pos + i]; break;
+            }
+            pos += len; step++;
+        }
+        break;
+    }
+    case 2: a.append(prefix.data(), fill); a.append_char('J', fill / 2 + 300); a.truncate(fill); break;
+    case 3: a.append(prefix.data(), fill); a.append_char('J', 77); a.erase(77); break;
+    case 6: a.append_char('J', 5000); a.truncate(); a.append(prefix.data(), fill); break;
+    default: a.append(prefix.data(), fill); break;
+    }
+}
+
+std::string first_difference(const char *got, size_t gn, const std::string &expect) {
+    size_t d = 0; const size_t m = std::min(gn, expect.size());
+    while (d < m && got[d] == expect[d]) d++;
+    return "size " + verif::unum(gn) + ", expected " + verif::unum(expect.size()) + "; first difference at byte " + verif::unum(d) + ": " + verif::quoted(std::string(got + d, std::min<size_t>(24, gn - d))) +
+           " vs model " + verif::quoted(expect.substr(d, 24));
+}
+
+template <class F> std::string check_stream_t(const StreamCase &sc, F v) {
+    const double dv = (double)v;
+    try {
+        std::string prefix(sc.fill, ' ');
+        for (size_t i = 0; i < sc.fill; i++) prefix[i] = pattern_byte(i);
+        const std::string num = ref::c_printf_double(dv, 'g', false, -1);
+        ST::string_stream a;
+        build_prefill(a, prefix, sc.pre);
+        std::optional<ST::string_stream> other;
+        ST::string_stream *ss = &a;
+        if (sc.pre == 4) { other.emplace(std::move(a)); ss = &*other; }
+        else if (sc.pre == 5) { other.emplace(); other->append_char('J', 3000); *other = std::move(a); ss = &*other; }
+        if (ss->size() != sc.fill || (sc.fill && memcmp(ss->raw_buffer(), prefix.data(), sc.fill) != 0))
+            return std::string("string_stream does not hold the ") + verif::unum(sc.fill) + " bytes appended before the number (" + kPreNames[sc.pre] + ")";
+        std::string expect = prefix + num;
+        *ss << v;
+        // the second value of tail 2: the other floating type
+        const double second = -dv * 0.3333333333333333;
+        const float secondf = (float)second;
+        switch (sc.tail) {
+        case 1: *ss << "]"; expect += "]"; break;
+        case 2: if constexpr (std::is_same<F, float>::value) { *ss << '|' << second << '.'; expect += "|" + ref::c_printf_double(second, 'g', false, -1) + "."; }
+                else { *ss << '|' << secondf << '.'; expect += "|" + ref::c_printf_double((double)secondf, 'g', false, -1) + "."; }
+                break;
+        case 3: ss->append_char('#', 300); expect += std::string(300, '#'); break;
+        case 4: for (int i = 0; i < 3; i++) { *ss << v; expect += num; } break;
+        default: break;
+        }
+        if (ss->size() != expect.size() || memcmp(ss->raw_buffer(), expect.data(), expect.size()) != 0)
+            return std::string("string_stream holding ") + verif::unum(sc.fill) + " bytes (" + kPreNames[sc.pre] + ") << " + (sc.is_float ? "float " : "double ") + num + " + tail " + verif::num(sc.tail) + ": " +
+                   first_difference(ss->raw_buffer(), ss->size(), expect);
+        ST::string out = ss->to_string();
+        if (!same_text(out, expect)) return "string_stream::to_string() differs from the stream's own bytes after << " + num + " at fill " + verif::unum(sc.fill);
+
+        // ST::format writes through the same kind of buffer: `fill` literal bytes, then the field, then more text
+        const std::string field = std::string("{") + (sc.conv ? std::string(1, kConv[sc.conv]) : std::string()) + (sc.prec >= 0 ? "." + std::to_string(sc.prec) : std::string()) + "}";
+        const std::string ftext = ref::c_printf_double(dv, kConv[sc.conv], false, sc.prec);
+        const std::string fmt = prefix + field + (sc.tail == 1 ? "]" : sc.tail == 4 ? field + field : "");
+        const std::string fexpect = prefix + ftext + (sc.tail == 1 ? "]" : sc.tail == 4 ? ftext + ftext : "");
+        ST::string f = sc.tail == 4 ? ST::format(fmt.c_str(), v, v, v) : ST::format(fmt.c_str(), v);
+        if (!same_text(f, fexpect))
+            return std::string("ST::format(<") + verif::unum(sc.fill) + " literal bytes>" + field + "..., " + (sc.is_float ? "float " : "double ") + num + "): " + first_difference(f.c_str(), f.size(), fexpect);
+    } catch (...) {
+        return "unexpected " + verif::describe_current_exception();
+    }
+    return std::string();
+}
+std::string check_stream(const StreamCase &sc) {
+    return sc.is_float ? check_stream_t<float>(sc, flt_from_bits((uint32_t)sc.bits)) : check_stream_t<double>(sc, dbl_from_bits(sc.bits));
+}
+std::string render_stream(const StreamCase &sc) {
+    char tmp[64]; snprintf(tmp, sizeof tmp, sc.is_float ? "float %.9g" : "double %.17g", sc.value());
+    return std::string("C13 stream: string_stream with ") + verif::unum(sc.fill) + " bytes (" + kPreNames[sc.pre] + ") << " + tmp + ", tail " + verif::num(sc.tail) +
+           "; bytes compared with a model; ST::format with " + verif::unum(sc.fill) + " literal bytes before {" + (sc.conv ? std::string(1, kConv[sc.conv]) : std::string()) +
+           (sc.prec >= 0 ? "." + std::to_string(sc.prec) : std::string()) + "}";
+}
+const size_t kStreamBytes = 17;
+void encode_stream(const StreamCase &sc, uint8_t *o) {
+    o[0] = 0xFD; o[1] = sc.is_float; for (int i = 0; i < 8; i++) o[2 + i] = (uint8_t)(sc.bits >> (8 * i));
+    o[10] = (uint8_t)sc.fill; o[11] = (uint8_t)(sc.fill >> 8); o[12] = (uint8_t)sc.pre; o[13] = (uint8_t)sc.tail; o[14] = (uint8_t)sc.conv;
+    unsigned p = sc.prec < 0 ? 0xFFFF : (unsigned)sc.prec; o[15] = (uint8_t)p; o[16] = (uint8_t)(p >> 8);
+}
+void stream_boundary(const StreamCase &sc, bool &straddles, bool &ends_on) {
+    const size_t len = ref::c_printf_double(sc.value(), 'g', false, -1).size();
+    const size_t flen = ref::c_printf_double(sc.value(), kConv[sc.conv], false, sc.prec).size();
+    straddles = ends_on = false;
+    for (size_t cap = ST_STACK_STRING_SIZE; cap <= 16384; cap *= 2) {
+        if (sc.fill < cap && (sc.fill + len > cap || sc.fill + flen > cap)) straddles = true;
+        if (sc.fill + len == cap || sc.fill + flen == cap) ends_on = true;
+    }
+}
+int run_stream_case(Case &c, const StreamCase &sc) {
+    if (c.want_text) c.text = render_stream(sc);
+    bool straddles, ends_on; stream_boundary(sc, straddles, ends_on);
+    c.label("stream:prefilled");
+    c.label(sc.is_float ? "value:float" : "value:double");
+    c.label(kPreNames[sc.pre]);
+    c.label(sc.fill == 0 ? "fill:0" : sc.fill < ST_STACK_STRING_SIZE ? "fill:in-object" : sc.fill < 1024 ? "fill:256..1023" : "fill:1024..5000");
+    if (straddles) c.label("stream:number-straddles-capacity-step");
+    if (ends_on) c.label("stream:number-ends-on-capacity-step");
+    c.nontrivial = straddles || ends_on || sc.fill >= ST_STACK_STRING_SIZE;
+    std::string why = check_stream(sc);
+    return why.empty() ? verif::CASE_OK : c.fail(why);
 }
 
 const char kFloatAlphabet[] = {'0', '1', '2', '3', '4', '5', '6', '7', '8', '9', '0', '1', '9', '5', '.', '.', 'e', 'E', '+', '-', '-', 'x', 'X', 'p', 'P', 'n', 'a', 'N', 'A',
@@ -337,6 +686,8 @@ int verif_case(const uint8_t *data, size_t size, Case &c) {
         rc.plus = r.u8() & 1; unsigned w = r.u8(); w |= (unsigned)r.u8() << 8; rc.width = w > 1200 ? 1200 : (int)w;
         rc.align = r.u8() % 3; rc.padkind = r.u8() % 3; uint8_t pc = r.u8() & 0x7F; rc.padch = pc ? (char)pc : '*';
         rc.order = r.u8(); rc.ctx = r.u8() & 3; uint8_t l = r.u8(); rc.letter = l == 0xFF ? -1 : l % 6;
+        rc.cplx = r.u8() & 1; rc.bits2 = r.bits64(); if (rc.is_float) rc.bits2 &= 0xFFFFFFFFull;
+        if (!rc.cplx) rc.bits2 = 0;
         c.label("directed-render");
         return run_render_case(c, rc);
     }
@@ -347,7 +698,75 @@ int verif_case(const uint8_t *data, size_t size, Case &c) {
         return run_parse_case(c, text);
     }
 
-    if ((mode & 1) == 0) {
+    if (mode == 0xFD) {                                    // directed stream case
+        StreamCase sc;
+        sc.is_float = r.u8() & 1; sc.bits = r.bits64(); if (sc.is_float) sc.bits &= 0xFFFFFFFFull;
+        unsigned f = r.u8(); f |= (unsigned)r.u8() << 8; sc.fill = f > kMaxFill ? kMaxFill : f; sc.pre = r.u8() % 7; sc.tail = r.u8() % 5; sc.conv = r.u8() & 3;
+        unsigned p = r.u8(); p |= (unsigned)r.u8() << 8; sc.prec = p > 400 ? -1 : (int)p;
+        c.label("directed-stream");
+        return run_stream_case(c, sc);
+    }
+
+    // The upper five bits of the mode byte select the classes added later; 0..19 and 28..31 keep the original two directions.
+    const unsigned cls = mode >> 3;
+    const bool complex_class = cls >= 20 && cls <= 22;
+    if (cls >= 23 && cls <= 25) {
+        // ------------------------------------------------------------------ number into pre-filled output
+        StreamCase sc;
+        sc.is_float = r.flag();
+        sc.pre = (int)r.idx(7);
+        sc.tail = (int)r.idx(5);
+        switch (r.idx(4)) {
+        case 0: { static const double vals[] = {0.0, 1.5, -1.5, 3.14159, -DBL_MAX, DBL_MAX, -FLT_MAX, 1e100, -1e-100, 123456.0, 1234567.0, -0.0001, 1e-5, INFINITY, -INFINITY, NAN, 5e-324, -1.17549435e-38, 0.1, -2.5e10};
+                  double d = r.pick(vals); sc.bits = sc.is_float ? bits_of((float)d) : bits_of(d); break; }
+        case 1: if (sc.is_float) { const auto &t = float_table(); sc.bits = t[r.idx(t.size())]; } else { const auto &t = double_table(); sc.bits = t[r.idx(t.size())]; } break;
+        default: sc.bits = sc.is_float ? r.bits32() : r.bits64(); break;
+        }
+        sc.conv = (int)r.idx(4);
+        switch (r.idx(4)) { case 1: sc.prec = r.pick(kPrecTable); break; case 2: sc.prec = (int)r.range(0, 20); break; default: sc.prec = -1; }
+        const size_t len = ref::c_printf_double(sc.value(), 'g', false, -1).size();
+        const size_t flen = ref::c_printf_double(sc.value(), kConv[sc.conv], false, sc.prec).size();
+        if (r.chance(64)) sc.fill = (size_t)r.range(0, kMaxFill);
+        else {                                              // next to a capacity step, measured by the stream text or by the ST::format text
+            static const uint16_t steps[] = {256, 512, 1024, 2048, 4096, 256, 256, 512};
+            const size_t cap = r.pick(steps);
+            const size_t l = r.flag() ? flen : len;
+            const size_t back = (size_t)r.range(0, 3) == 0 ? (size_t)r.range(0, l + 3) : l + (size_t)r.range(0, 3) - 1;   // often: ends exactly on / one beside the step
+            sc.fill = cap + 2 - std::min(back, cap + 2);
+        }
+        return run_stream_case(c, sc);
+    }
+    if (cls >= 26 && cls <= 27) {
+        // ------------------------------------------------------------------ long texts (several KB), parse direction
+        static const uint16_t runs[] = {0, 1, 255, 256, 257, 1000, 4095, 4096, 5000, 64, 300, 2048, 38, 39, 308, 309, 324, 400};
+        std::vector<uint8_t> text;
+        c.label("text:long");
+        const unsigned shape = (unsigned)r.range(0, 5);
+        if (shape != 5) { size_t nws = r.pick(runs); if (shape != 0) nws &= 1; for (size_t i = 0; i < nws; i++) text.push_back((uint8_t)" \t\n\v\f\r"[(i * 5 + nws) % 6]); }
+        switch (r.range(0, 2)) { case 1: text.push_back('-'); break; case 2: text.push_back('+'); break; default: break; }
+        const bool hex = shape == 4;
+        if (hex) { text.push_back('0'); text.push_back(r.flag() ? 'X' : 'x'); }
+        auto digits = [&](size_t count, uint8_t seed) { for (size_t i = 0; i < count; i++) text.push_back(hex ? (uint8_t)"0123456789abcdefABCDEF"[(i * 7 + seed) % 22] : (uint8_t)('0' + (i * 7 + seed) % 10)); };
+        switch (shape) {
+        case 0: digits((size_t)r.range(0, 20), r.u8()); break;                                  // long whitespace, short number
+        case 1: text.insert(text.end(), r.pick(runs), (uint8_t)'0'); digits((size_t)r.range(0, 20), r.u8()); break;          // leading zeros
+        case 2: text.push_back((uint8_t)('1' + r.range(0, 8))); text.insert(text.end(), r.pick(runs), (uint8_t)'0'); break;   // 1 followed by zeros: overflow to infinity at 39 / 309
+        case 3: text.push_back('0'); text.push_back('.'); text.insert(text.end(), r.pick(runs), (uint8_t)'0'); digits((size_t)r.range(1, 20), r.u8()); break;   // underflow
+        case 4: digits(r.pick(runs), r.u8()); break;
+        default: digits(r.pick(runs), r.u8()); break;                                           // a long digit run
+        }
+        if (r.flag()) { text.push_back('.'); digits(r.flag() ? r.pick(runs) : (size_t)r.range(0, 20), r.u8()); }
+        if (r.flag()) {
+            text.push_back(hex ? 'p' : 'e');
+            switch (r.range(0, 2)) { case 1: text.push_back('-'); break; case 2: text.push_back('+'); break; default: break; }
+            if (r.chance(32)) text.insert(text.end(), r.pick(runs), (uint8_t)'0');               // zero-padded exponent
+            std::string es = std::to_string(r.pick(runs)); text.insert(text.end(), es.begin(), es.end());
+        }
+        if (r.chance(64)) { text.push_back(r.pick(kTails)); size_t nd = r.pick(runs); for (size_t i = 0; i < nd; i++) text.push_back((uint8_t)('0' + (i % 10))); }
+        return run_parse_case(c, text, (int)r.idx(kRoutes));
+    }
+
+    if ((mode & 1) == 0 || complex_class) {
         // ------------------------------------------------------------------ render direction
         RenderCase rc;
         rc.is_float = r.flag();
@@ -399,6 +818,15 @@ int verif_case(const uint8_t *data, size_t size, Case &c) {
         }
         if (rc.width < 0) rc.width = 0;
         if (rc.width > 1200) rc.width = 1200;
+        if (complex_class) {                                // imaginary part: special, table or random, read after everything else
+            rc.cplx = true; rc.letter = -1;
+            switch (r.idx(3)) {
+            case 0: { static const double ims[] = {0.0, -0.0, 1.0, -1.0, 1.5, INFINITY, -INFINITY, NAN, DBL_MAX, -DBL_MAX, 1e100, -1e-100, 5e-324, 0.1, 1e22, 123456.0};
+                      double d = r.pick(ims); rc.bits2 = rc.is_float ? bits_of((float)d) : bits_of(d); break; }
+            case 1: if (rc.is_float) { const auto &t = float_table(); rc.bits2 = t[r.idx(t.size())]; } else { const auto &t = double_table(); rc.bits2 = t[r.idx(t.size())]; } break;
+            default: rc.bits2 = rc.is_float ? r.bits32() : r.bits64(); break;
+            }
+        }
         return run_render_case(c, rc);
     }
 
@@ -482,7 +910,7 @@ int verif_case(const uint8_t *data, size_t size, Case &c) {
             text.push_back(b < 232 ? (uint8_t)kFloatAlphabet[b % sizeof kFloatAlphabet] : r.u8());
         }
     }
-    return run_parse_case(c, text);
+    return run_parse_case(c, text, (int)r.idx(kRoutes));
 }
 
 // ---------------------------------------------------------------------------------------------
@@ -503,7 +931,7 @@ long verif_enumerate(int shard, int nshards, int tier, verif::EnumReport &r) {
         rc.align = al; rc.padkind = pk; rc.padch = kPadChars[counter % (long)sizeof kPadChars];
         rc.order = (unsigned)(counter * 7) & 0xFF; rc.ctx = (int)(counter & 3);
         rc.letter = -1;                                    // from_*/stream: once per (value, notation), upper-case letters every other time
-        if (rc.prec < 0 && !rc.plus) { rc.letter = rc.conv; if ((counter >> 2) & 1) { if (rc.conv == 0) rc.letter = 4; else if (rc.conv == 1) rc.letter = 5; } }
+        if (rc.prec < 0 && !rc.plus && !rc.cplx) { rc.letter = rc.conv; if ((counter >> 2) & 1) { if (rc.conv == 0) rc.letter = 4; else if (rc.conv == 1) rc.letter = 5; } }
         encode_render(rc, cur);
         verif::set_current(cur, kRenderBytes);
         r.evaluations++;
@@ -531,7 +959,92 @@ long verif_enumerate(int shard, int nshards, int tier, verif::EnumReport &r) {
     for (size_t i = (size_t)shard; i < dt.size(); i += (size_t)nshards) if (!sweep(false, dt[i])) return r.evaluations;
     const auto &ft = float_table();
     for (size_t i = (size_t)shard; i < ft.size(); i += (size_t)nshards) if (!sweep(true, ft[i])) return r.evaluations;
+    // ---- std::complex: every table value as the real part, the next-but-k table value as the imaginary part, notation x precision rotating
+    auto complex_sweep = [&](bool is_float, size_t i, uint64_t re, uint64_t im) -> bool {
+        for (int conv = 0; conv < 4; conv++) {
+            RenderCase rc; rc.is_float = is_float; rc.bits = re; rc.bits2 = im; rc.cplx = true; rc.conv = conv;
+            rc.prec = precs[(i + (size_t)conv * 5) % precs.size()]; rc.plus = ((i >> 1) + (size_t)conv) & 1;
+            if (!run(rc)) return false;
+        }
+        return true;
+    };
+    for (size_t i = (size_t)shard; i < dt.size(); i += (size_t)nshards) if (!complex_sweep(false, i, dt[i], dt[(i * 7 + 13) % dt.size()])) return r.evaluations;
+    for (size_t i = (size_t)shard; i < ft.size(); i += (size_t)nshards) if (!complex_sweep(true, i, ft[i], ft[(i * 7 + 13) % ft.size()])) return r.evaluations;
+
+    // ---- a number streamed / formatted into output that already holds `fill` bytes: every fill level 0..5000
+    {
+        uint8_t scur[kStreamBytes];
+        static const double svals[4] = {-DBL_MAX, 1.5, -1e-100, 123456.0};
+        for (size_t fill = (size_t)shard; fill <= kMaxFill; fill += (size_t)nshards)
+            for (int isf = 0; isf < 2; isf++)
+                for (int vi = 0; vi < 4; vi++) {
+                    StreamCase sc; sc.is_float = isf != 0; sc.fill = fill;
+                    const double d = (isf && vi == 0) ? -(double)FLT_MAX : svals[vi];
+                    sc.bits = isf ? (uint64_t)bits_of((float)d) : bits_of(d);
+                    sc.pre = (int)((fill + (size_t)isf * 3 + (size_t)vi) % 7); sc.tail = (int)((fill / 7 + (size_t)isf + (size_t)vi * 2) % 5);
+                    sc.conv = (int)((fill / 5 + (size_t)vi) % 4); sc.prec = vi == 1 ? (int)(fill % 80) : vi == 3 ? 60 : -1;     // {f} of -DBL_MAX: 317 characters
+                    encode_stream(sc, scur);
+                    verif::set_current(scur, kStreamBytes);
+                    r.evaluations++;
+                    bool straddles, ends_on; stream_boundary(sc, straddles, ends_on);
+                    if (straddles || ends_on || fill >= ST_STACK_STRING_SIZE) r.nontrivial++;
+                    std::string why = check_stream(sc);
+                    if (!why.empty()) {
+                        if (r.failure.empty()) { r.failure = why; r.failing_case = render_stream(sc); r.failing_bytes.assign(scur, scur + kStreamBytes); }
+                        return r.evaluations;
+                    }
+                    if (shard == 2 && fill == 242 && isf == 0 && vi == 0 && r.samples.size() < 4) r.samples.push_back(render_stream(sc));
+                }
+    }
+
+    // ---- parse direction: every string of length <= 4 (quick) / 5 (thorough) over a 16-symbol alphabet, and the word list
+    {
+        static const uint8_t alpha[16] = {'0', '1', '9', '.', 'e', 'E', '+', '-', 'x', 'p', 'n', 'a', 'i', 'f', ' ', 0x00};
+        uint8_t pcur[80];
+        auto parse = [&](const uint8_t *t, size_t n) -> bool {
+            pcur[0] = 0xFE; if (n) memcpy(pcur + 1, t, n);
+            verif::set_current(pcur, n + 1);
+            r.evaluations++;
+            ParseFacts pf;
+            std::string why = check_parse(t, n, &pf);
+            if (pf.consumed > 0 && (pf.consumed < n || pf.special || pf.range)) r.nontrivial++;
+            if (!why.empty()) {
+                if (r.failure.empty()) { r.failure = why; r.failing_case = render_parse(t, n); r.failing_bytes.assign(pcur, pcur + n + 1); }
+                return false;
+            }
+            return true;
+        };
+        const int L = tier == 0 ? 4 : 5;
+        uint8_t t[8];
+        if (shard == 0 && !parse(t, 0)) return r.evaluations;
+        for (int first = shard; first < 16; first += nshards) {
+            t[0] = alpha[first];
+            for (int len = 1; len <= L; len++) {
+                long count = 1; for (int i = 1; i < len; i++) count *= 16;
+                for (long idx = 0; idx < count; idx++) {
+                    long v = idx; for (int i = 1; i < len; i++) { t[i] = alpha[v & 15]; v >>= 4; }
+                    if (!parse(t, (size_t)len)) return r.evaluations;
+                }
+            }
+        }
+        const size_t nwords = sizeof kWords / sizeof kWords[0];
+        for (size_t wi = (size_t)shard; wi < nwords; wi += (size_t)nshards) {
+            const size_t wl = strlen(kWords[wi]);
+            static const char *const before[] = {"", " ", "-", "+", "\t-"};
+            static const char *const after[] = {"", " ", "x", "0", "e1", "\0" "1"};
+            for (const char *b : before)
+                for (size_t ai = 0; ai < 6; ai++) {
+                    std::string tx = std::string(b) + kWords[wi] + (ai == 5 ? std::string("\0" "1", 2) : std::string(after[ai]));
+                    if (tx.size() < 70 && !parse((const uint8_t *)tx.data(), tx.size())) return r.evaluations;
+                    (void)wl;
+                }
+        }
+    }
     if (shard == 0) {
+        r.exhausted.push_back("render: std::complex<double>/<float> with every directed-table value as real part (imaginary part: another table value) x {default,f,e,E}, precision and '+' rotating");
+        r.exhausted.push_back("stream: every fill level 0..5000 of a string_stream / ST::format output x {float,double} x 4 values (-max, 1.5, -1e-100, 123456), pre-state (7), tail (5), notation and precision rotating");
+        r.exhausted.push_back(std::string("parse: every byte string of length 0..") + (tier == 0 ? "4" : "5") + " over {0 1 9 . e E + - x p n a i f space NUL}; " + verif::unum(sizeof kWords / sizeof kWords[0]) +
+                              " special spellings x 5 prefixes x 6 suffixes; to_double/to_float, with and without conversion_result, one re-used conversion_result pair each");
         r.exhausted.push_back("render: directed table of " + verif::unum(dt.size()) + " doubles and " + verif::unum(ft.size()) +
                               " floats (+-0, +-inf, NaNs, min/max normal and subnormal, every 10^k and 2^k with both neighbours, rounding cases, both signs) x {default,f,e,E} x " +
                               verif::unum(precs.size()) + " precisions x '+'; width/alignment/pad rotate through all 45 combinations");
@@ -546,4 +1059,10 @@ void verif_corpus(std::vector<std::vector<uint8_t>> &out) {
     RenderCase rc; rc.bits = bits_of(1e100); rc.conv = 1; rc.letter = 1; encode_render(rc, b); out.push_back(std::vector<uint8_t>(b, b + kRenderBytes));
     rc = RenderCase(); rc.bits = bits_of(3.14159); rc.conv = 2; rc.prec = 70; rc.width = 90; rc.align = 1; rc.padkind = 2; encode_render(rc, b); out.push_back(std::vector<uint8_t>(b, b + kRenderBytes));
     out.push_back({0, 0, 0, 0});
+    rc = RenderCase(); rc.bits = bits_of(-1.5); rc.bits2 = bits_of(1e100); rc.cplx = true; rc.conv = 1; rc.letter = -1; rc.width = 12; encode_render(rc, b); out.push_back(std::vector<uint8_t>(b, b + kRenderBytes));
+    uint8_t sb[kStreamBytes];
+    StreamCase sc; sc.bits = bits_of(-DBL_MAX); sc.fill = 243; sc.tail = 2; sc.conv = 1; encode_stream(sc, sb); out.push_back(std::vector<uint8_t>(sb, sb + kStreamBytes));
+    out.push_back({20 << 3, 0, 0, 0, 0, 0, 0, 0, 0});
+    out.push_back({23 << 3, 0, 0, 0, 0, 0, 0, 0, 0});
+    out.push_back({26 << 3, 0, 0, 0, 0, 0, 0, 0, 0});
 }
